@@ -604,7 +604,7 @@ def run_chatty(case):
                 viol.append({"clause": "active-session-dropped", "subject": subject, "detail": f"control connection closed by the server after {info['rounds']} rounds (idle_timeout={idle}, socket_timeout={case.get('sock')})"})
             peer.close()
             await asyncio.sleep(1)
-            await asyncio.wait_for(server.close(), 1e4)
+            await common.close_server(server)
 
         world.run(main())
         return _finish(world, case, viol, info, nontrivial=info["rounds"] >= 5, peer=peer)
